@@ -104,6 +104,8 @@ def judge(evs, violations, stats):
         if ev.exc:
             if st == 'retry' and ev.run.get('force_timeouts') is not None and ev.exc['__exc__'] == 'ValueError':
                 pass                                 # judged against the model of caller_reducer in judge_retry
+            elif CK.is_end_inclusion_crash(ev):
+                stats['end_inclusion_crash'] += 1    # nothing is emitted: C01 owns the finding
             elif CK.is_fusion_crash(ev):
                 stats['fusion_crash'] += 1           # nothing is emitted: C01 owns the finding
             else:
